@@ -449,3 +449,721 @@ Proof.
     rewrite E. destruct (differs x r sb); reflexivity.
   - unfold mem_next, m. cbn [fst snd]. rewrite P2, P3. reflexivity.
 Qed.
+
+(* ------------------------------------------------------------------ *)
+(* C17_old_ctx_silent: the invariant of the repaired variant          *)
+(* ------------------------------------------------------------------ *)
+Definition armed (s : st) (c : nat) : Prop := timer_active (c_timer (getc s c)) = true.
+
+(* c is the current context of an active handle that is not closing *)
+Definition cur (s : st) (c : nat) : Prop :=
+  is_head s (c_parent (getc s c)) c = true /\
+  h_active (geth s (c_parent (getc s c))) = true /\
+  h_closing (geth s (c_parent (getc s c))) = false.
+
+(* only the current context of an active handle has its timer armed: no
+   other context will ever submit another stat *)
+Definition Silent (s : st) : Prop := forall c, armed s c -> cur s c.
+
+Definition ChainOK (s : st) : Prop :=
+  forall h c, In c (h_chain (geth s h)) -> (c < length (cs s))%nat /\ c_parent (getc s c) = h.
+
+Definition SI (s : st) : Prop := Silent s /\ ChainOK s.
+
+Lemma getc_upd_c s c f c' :
+  getc (upd_c s c f) c' =
+  if Nat.eqb c c' && Nat.ltb c (length (cs s)) then f (getc s c') else getc s c'.
+Proof.
+  unfold getc, upd_c, set_cs. cbn [cs].
+  destruct (Nat.eqb_spec c c') as [->|N]; cbn [andb].
+  - destruct (Nat.ltb_spec c' (length (cs s))).
+    + apply nth_upd_same; auto.
+    + rewrite nth_upd_out by auto. reflexivity.
+  - apply nth_upd_other; auto.
+Qed.
+
+Lemma geth_upd_h s h f h' :
+  geth (upd_h s h f) h' =
+  if Nat.eqb h h' && Nat.ltb h (length (hs s)) then f (geth s h') else geth s h'.
+Proof.
+  unfold geth, upd_h, set_hs. cbn [hs].
+  destruct (Nat.eqb_spec h h') as [->|N]; cbn [andb].
+  - destruct (Nat.ltb_spec h' (length (hs s))).
+    + apply nth_upd_same; auto.
+    + rewrite nth_upd_out by auto. reflexivity.
+  - apply nth_upd_other; auto.
+Qed.
+
+Lemma armed_lt s c : armed s c -> (c < length (cs s))%nat.
+Proof.
+  unfold armed, getc. intros A. destruct (Nat.lt_ge_cases c (length (cs s))); auto.
+  rewrite nth_overflow in A by auto. discriminate.
+Qed.
+
+Lemma is_head_in s h c : is_head s h c = true -> In c (h_chain (geth s h)).
+Proof.
+  unfold is_head. destruct (h_chain (geth s h)) as [|c0 l]; [discriminate|].
+  intros E. apply Nat.eqb_eq in E. subst. left; reflexivity.
+Qed.
+
+(* a state that differs only outside [hs] and [cs] *)
+Lemma SI_same s s' : hs s' = hs s -> cs s' = cs s -> SI s -> SI s'.
+Proof.
+  intros Eh Ec [S C]. split.
+  - intros c A. unfold armed, cur, is_head, getc, geth in *. rewrite Eh, Ec in *. apply S; auto.
+  - intros h c I. unfold ChainOK, getc, geth in *. rewrite Eh, Ec in *. apply C; auto.
+Qed.
+
+(* a context update that keeps the parent and arms nothing *)
+Lemma SI_upd_c s c f :
+  (forall x, c_parent (f x) = c_parent x) ->
+  (forall x, timer_active (c_timer (f x)) = true -> timer_active (c_timer x) = true) ->
+  SI s -> SI (upd_c s c f).
+Proof.
+  intros Fp Ft [S C]. split.
+  - intros c' A. unfold armed in A. rewrite getc_upd_c in A.
+    assert (A' : armed s c').
+    { unfold armed. destruct (Nat.eqb c c' && Nat.ltb c (length (cs s))); auto. }
+    specialize (S c' A'). unfold cur in *. rewrite getc_upd_c.
+    assert (P : c_parent (if Nat.eqb c c' && Nat.ltb c (length (cs s)) then f (getc s c') else getc s c')
+                = c_parent (getc s c')).
+    { destruct (Nat.eqb c c' && Nat.ltb c (length (cs s))); auto. }
+    rewrite P. exact S.
+  - intros h c' I. change (geth (upd_c s c f) h) with (geth s h) in I.
+    destruct (C h c' I) as [L P]. rewrite len_cs_upd_c. split; auto.
+    rewrite getc_upd_c. destruct (Nat.eqb c c' && Nat.ltb c (length (cs s))); auto.
+    rewrite Fp; auto.
+Qed.
+
+Lemma SI_close_timer s c : SI s -> SI (close_timer s c).
+Proof.
+  intros H. unfold close_timer.
+  apply (SI_same (upd_c s c (c_set_timer TClosing))); try reflexivity.
+  apply SI_upd_c; auto. cbn. discriminate.
+Qed.
+
+Lemma cur_transfer s s' c :
+  c_parent (getc s' c) = c_parent (getc s c) ->
+  geth s' (c_parent (getc s c)) = geth s (c_parent (getc s c)) ->
+  cur s c -> cur s' c.
+Proof.
+  intros P G. unfold cur, is_head. rewrite P, G. auto.
+Qed.
+
+Lemma getc_app s x c : (c < length (cs s))%nat -> getc (set_cs s (cs s ++ [x])) c = getc s c.
+Proof. intros L. unfold getc, set_cs. cbn [cs]. apply app_nth1; auto. Qed.
+
+Lemma SI_start_ok s h nc l1 l2 :
+  SI s -> h_active (geth s h) = false -> c_parent nc = h -> timer_active (c_timer nc) = false ->
+  SI (upd_h (set_inflight (set_hq (set_cs s (cs s ++ [nc])) l1) l2) h
+            (fun x => h_set_active true (h_set_chain (length (cs s) :: h_chain x) x))).
+Proof.
+  intros [S C] Ha Pn Tn.
+  set (s1 := set_inflight (set_hq (set_cs s (cs s ++ [nc])) l1) l2).
+  assert (G1 : forall c, getc (upd_h s1 h (fun x => h_set_active true (h_set_chain (length (cs s) :: h_chain x) x))) c
+                         = getc (set_cs s (cs s ++ [nc])) c) by reflexivity.
+  split.
+  - intros c A. pose proof (armed_lt _ _ A) as L.
+    unfold armed in A. rewrite G1 in A.
+    cbn [cs upd_h set_hs s1 set_inflight set_hq set_cs] in L. rewrite app_length in L. cbn in L.
+    destruct (Nat.eq_dec c (length (cs s))) as [->|N].
+    + unfold getc, set_cs in A. cbn [cs] in A. rewrite nth_middle in A. congruence.
+    + assert (L' : (c < length (cs s))%nat) by lia.
+      rewrite getc_app in A by auto.
+      pose proof (S c A) as Cu.
+      assert (Hne : c_parent (getc s c) <> h).
+      { intros E. destruct Cu as (_ & Ac & _). rewrite E in Ac. congruence. }
+      apply (cur_transfer s); auto.
+      * rewrite G1, getc_app by auto. reflexivity.
+      * rewrite geth_upd_h.
+        destruct (Nat.eqb_spec h (c_parent (getc s c))); [congruence|]. reflexivity.
+  - intros h' c I. cbn [cs upd_h set_hs s1 set_inflight set_hq set_cs]. rewrite app_length. cbn [length].
+    rewrite geth_upd_h in I. cbn [hs s1 set_inflight set_hq set_cs] in I.
+    rewrite G1.
+    assert (Old : In c (h_chain (geth s h')) ->
+                  (c < length (cs s) + 1)%nat /\ c_parent (getc (set_cs s (cs s ++ [nc])) c) = h').
+    { intros I'. destruct (C h' c I') as [L P]. split; [lia|]. rewrite getc_app; auto. }
+    destruct (Nat.eqb_spec h h') as [->|N]; cbn [andb] in I; auto.
+    destruct (Nat.ltb h' (length (hs s))); auto.
+    cbn [h_set_active h_set_chain h_chain] in I. destruct I as [<-|I]; auto.
+    split; [lia|]. unfold getc, set_cs. cbn [cs]. rewrite nth_middle. exact Pn.
+Qed.
+
+Lemma SI_start_fail s nc l1 :
+  SI s -> timer_active (c_timer nc) = false -> SI (set_hq (set_cs s (cs s ++ [nc])) l1).
+Proof.
+  intros [S C] Tn.
+  assert (G1 : forall c, getc (set_hq (set_cs s (cs s ++ [nc])) l1) c = getc (set_cs s (cs s ++ [nc])) c)
+    by reflexivity.
+  split.
+  - intros c A. pose proof (armed_lt _ _ A) as L. unfold armed in A. rewrite G1 in A.
+    cbn [cs set_hq set_cs] in L. rewrite app_length in L. cbn in L.
+    destruct (Nat.eq_dec c (length (cs s))) as [->|N].
+    + unfold getc, set_cs in A. cbn [cs] in A. rewrite nth_middle in A. congruence.
+    + rewrite getc_app in A by lia.
+      apply (cur_transfer s); auto. rewrite G1, getc_app by lia. reflexivity.
+  - intros h' c I. change (geth (set_hq (set_cs s (cs s ++ [nc])) l1) h') with (geth s h') in I.
+    destruct (C h' c I) as [L P]. cbn [cs set_hq set_cs]. rewrite app_length. split; [lia|].
+    rewrite G1, getc_app; auto.
+Qed.
+
+Lemma SI_do_start s h cb p iv fl : SI s -> SI (fst (do_start s h cb p iv fl)).
+Proof.
+  intros H. unfold do_start. destruct (h_active (geth s h)) eqn:Ha; [exact H|].
+  destruct fl as [|[|[|fl]]]; cbn [fst].
+  - apply SI_start_ok; auto.
+  - exact H.
+  - apply SI_start_fail; auto.
+  - apply SI_start_ok; auto.
+Qed.
+
+Lemma ChainOK_ext s s' :
+  (forall h, incl (h_chain (geth s' h)) (h_chain (geth s h))) ->
+  (length (cs s) <= length (cs s'))%nat ->
+  (forall c, (c < length (cs s))%nat -> c_parent (getc s' c) = c_parent (getc s c)) ->
+  ChainOK s -> ChainOK s'.
+Proof.
+  intros Hi Hl Hp C h c I. destruct (C h c (Hi h c I)) as [L P]. split; [lia|]. rewrite Hp; auto.
+Qed.
+
+Lemma chain_upd_h_keep s h f h' :
+  (forall x, h_chain (f x) = h_chain x) -> h_chain (geth (upd_h s h f) h') = h_chain (geth s h').
+Proof.
+  intros F. rewrite geth_upd_h. destruct (Nat.eqb h h' && Nat.ltb h (length (hs s))); auto.
+Qed.
+
+Lemma parent_close_timer s c0 c : c_parent (getc (close_timer s c0) c) = c_parent (getc s c).
+Proof.
+  change (getc (close_timer s c0) c) with (getc (upd_c s c0 (c_set_timer TClosing)) c).
+  rewrite getc_upd_c. destruct (Nat.eqb c0 c && Nat.ltb c0 (length (cs s))); reflexivity.
+Qed.
+
+Lemma SI_do_stop_gen s h :
+  (forall c, armed s c -> c_parent (getc s c) <> h -> cur s c) ->
+  (forall c, armed s c -> c_parent (getc s c) = h ->
+             is_head s h c = true /\ h_active (geth s h) = true) ->
+  ChainOK s -> SI (do_stop s h).
+Proof.
+  intros H1 H2 HC. unfold do_stop.
+  destruct (h_active (geth s h)) eqn:Ha; cbn [negb].
+  2:{ split; auto. intros c A. destruct (Nat.eq_dec (c_parent (getc s c)) h) as [E|E]; auto.
+      destruct (H2 c A E) as [_ X]. congruence. }
+  destruct (h_chain (geth s h)) as [|c0 l] eqn:Ch.
+  - split.
+    + intros c A. change (armed s c) in A.
+      destruct (Nat.eq_dec (c_parent (getc s c)) h) as [E|E].
+      * destruct (H2 c A E) as [X _]. unfold is_head in X. rewrite Ch in X. discriminate.
+      * apply (cur_transfer s); auto. rewrite geth_upd_h.
+        destruct (Nat.eqb_spec h (c_parent (getc s c))); [congruence|reflexivity].
+    + eapply ChainOK_ext; [| | |exact HC]; auto.
+      intros h'. rewrite chain_upd_h_keep by reflexivity. apply incl_refl.
+  - assert (CO : ChainOK (upd_h (close_timer s c0) h (h_set_active false))).
+    { eapply ChainOK_ext; [| | |exact HC].
+      - intros h'. rewrite chain_upd_h_keep by reflexivity. apply incl_refl.
+      - change (cs (upd_h (close_timer s c0) h (h_set_active false))) with (cs (close_timer s c0)).
+        rewrite close_timer_len. auto.
+      - intros c _. apply parent_close_timer. }
+    assert (CO' : ChainOK (upd_h s h (h_set_active false))).
+    { eapply ChainOK_ext; [| | |exact HC]; auto.
+      intros h'. rewrite chain_upd_h_keep by reflexivity. apply incl_refl. }
+    destruct (timer_active (c_timer (getc s c0))) eqn:T; split; auto.
+    + intros c A. unfold armed in A.
+      change (getc (upd_h (close_timer s c0) h (h_set_active false)) c)
+        with (getc (upd_c s c0 (c_set_timer TClosing)) c) in A.
+      rewrite getc_upd_c in A.
+      destruct (Nat.eqb c0 c && Nat.ltb c0 (length (cs s))) eqn:Cond; [discriminate|].
+      change (armed s c) in A.
+      destruct (Nat.eq_dec (c_parent (getc s c)) h) as [E|E].
+      * exfalso. destruct (H2 c A E) as [X _]. unfold is_head in X. rewrite Ch in X.
+        apply Nat.eqb_eq in X. subst c0. pose proof (armed_lt _ _ A) as L.
+        rewrite Nat.eqb_refl in Cond. cbn in Cond. apply Nat.ltb_ge in Cond. lia.
+      * apply (cur_transfer s); auto.
+        -- apply parent_close_timer.
+        -- rewrite geth_upd_h. destruct (Nat.eqb_spec h (c_parent (getc s c))); [congruence|reflexivity].
+    + intros c A. change (armed s c) in A.
+      destruct (Nat.eq_dec (c_parent (getc s c)) h) as [E|E].
+      * exfalso. destruct (H2 c A E) as [X _]. unfold is_head in X. rewrite Ch in X.
+        apply Nat.eqb_eq in X. subst c0. unfold armed in A. congruence.
+      * apply (cur_transfer s); auto. rewrite geth_upd_h.
+        destruct (Nat.eqb_spec h (c_parent (getc s c))); [congruence|reflexivity].
+Qed.
+
+Lemma SI_do_stop s h : SI s -> SI (do_stop s h).
+Proof.
+  intros [S C]. apply SI_do_stop_gen; auto.
+  intros c A E. destruct (S c A) as (X & Y & _). rewrite E in *. auto.
+Qed.
+
+Lemma SI_do_close s h : SI s -> SI (do_close s h).
+Proof.
+  intros [S C]. unfold do_close.
+  set (s0 := upd_h s h h_set_closing).
+  assert (G : forall h', h_chain (geth s0 h') = h_chain (geth s h') /\
+                         h_active (geth s0 h') = h_active (geth s h')).
+  { intros h'. unfold s0. rewrite geth_upd_h.
+    destruct (Nat.eqb h h' && Nat.ltb h (length (hs s))); auto. }
+  assert (S1 : SI (do_stop s0 h)).
+  { apply SI_do_stop_gen.
+    - intros c A E. change (armed s c) in A. apply (cur_transfer s); auto.
+      unfold s0. rewrite geth_upd_h.
+      change (getc s0 c) with (getc s c) in E.
+      destruct (Nat.eqb_spec h (c_parent (getc s c))); [congruence|reflexivity].
+    - intros c A E. change (armed s c) in A. change (getc s0 c) with (getc s c) in E.
+      destruct (S c A) as (X & Y & _). rewrite E in *.
+      unfold is_head in *. destruct (G h) as [G1 G2]. rewrite G1, G2. auto.
+    - eapply ChainOK_ext; [| | |exact C]; auto.
+      intros h'. destruct (G h') as [G1 _]. rewrite G1. apply incl_refl. }
+  destruct (h_chain (geth (do_stop s0 h) h)); auto.
+Qed.
+
+Lemma SI_init_handle s x : h_chain x = [] -> SI s -> SI (set_hs s (hs s ++ [x])).
+Proof.
+  intros Hx [S C].
+  assert (G : forall h', (h' < length (hs s))%nat -> geth (set_hs s (hs s ++ [x])) h' = geth s h').
+  { intros h' L. unfold geth, set_hs. cbn [hs]. apply app_nth1; auto. }
+  assert (LT : forall h', h_active (geth s h') = true -> (h' < length (hs s))%nat).
+  { intros h' A. unfold geth in A. destruct (Nat.lt_ge_cases h' (length (hs s))); auto.
+    rewrite nth_overflow in A by auto. discriminate. }
+  split.
+  - intros c A. change (armed s c) in A. pose proof (S c A) as Cu.
+    apply (cur_transfer s); auto. apply G. apply LT. apply Cu.
+  - intros h' c I. change (cs (set_hs s (hs s ++ [x]))) with (cs s).
+    change (getc (set_hs s (hs s ++ [x])) c) with (getc s c).
+    destruct (Nat.lt_ge_cases h' (length (hs s))) as [L|L].
+    + rewrite G in I by auto. apply C; auto.
+    + unfold geth, set_hs in I. cbn [hs] in I.
+      destruct (Nat.eq_dec h' (length (hs s))) as [->|N].
+      * rewrite nth_middle, Hx in I. destruct I.
+      * rewrite nth_overflow in I by (rewrite app_length; cbn; lia). destruct I.
+Qed.
+
+Lemma SI_api s o : SI s -> SI (fst (api s o)).
+Proof.
+  intros H. destruct o; cbn [api fst]; auto.
+  - apply SI_init_handle; auto.
+  - destruct (valid s h && negb (h_closing (geth s h))); auto.
+    pose proof (SI_do_start s h cb path interval fail H) as X.
+    destruct (do_start s h cb path interval fail); auto.
+  - destruct (valid s h && negb (h_closed (geth s h))); cbn [fst]; auto. apply SI_do_stop; auto.
+  - destruct (valid s h && negb (h_closing (geth s h))); cbn [fst]; auto. apply SI_do_close; auto.
+Qed.
+
+Lemma SI_apis os : forall s, SI s -> SI (fst (apis s os)).
+Proof.
+  induction os as [|o os IH]; intros s H; cbn [apis]; auto.
+  pose proof (SI_api s o H) as X. destruct (api s o) as [s1 e1]. cbn [fst] in X.
+  pose proof (IH s1 X) as Y. destruct (apis s1 os) as [s2 e2]. exact Y.
+Qed.
+
+Lemma SI_user_cb s ev beh cnt : SI s -> SI (fst (fst (user_cb s ev beh cnt))).
+Proof.
+  intros H. unfold user_cb. pose proof (SI_apis (beh cnt) s H) as X.
+  destruct (apis s (beh cnt)); exact X.
+Qed.
+
+Lemma SI_mid fx s0 c res beh cnt : SI s0 -> SI (fst (fst (mid fx s0 c res beh cnt))).
+Proof.
+  intros H. unfold mid.
+  destruct (gone fx s0 (c_parent (getc s0 c)) c); auto.
+  destruct res as [r sb].
+  destruct (negb (r =? 0)).
+  - destruct (negb (c_busy (getc s0 c) =? r)); auto.
+    pose proof (SI_user_cb s0 (EPoll (c_parent (getc s0 c)) (c_cb (getc s0 c)) (c_path (getc s0 c)) r
+                                     (c_sb (getc s0 c)) zero_sb) beh cnt H) as X.
+    destruct (user_cb s0 _ beh cnt) as [[s' e] n]. cbn [fst] in *.
+    apply SI_upd_c; auto.
+  - destruct (negb (c_busy (getc s0 c) =? 0) && _).
+    + pose proof (SI_user_cb s0 (EPoll (c_parent (getc s0 c)) (c_cb (getc s0 c)) (c_path (getc s0 c)) 0
+                                       (c_sb (getc s0 c)) sb) beh cnt H) as X.
+      destruct (user_cb s0 _ beh cnt) as [[s' e] n]. cbn [fst] in *.
+      apply SI_upd_c; auto.
+    + cbn [fst]. apply SI_upd_c; auto.
+Qed.
+
+Lemma SI_arm s c h due seq v :
+  SI s -> is_head s h c = true -> h_active (geth s h) = true -> h_closing (geth s h) = false ->
+  SI (set_tctr (upd_c s c (c_set_timer (TArmed due seq))) v).
+Proof.
+  intros [S C] Hh Ha Hc.
+  destruct (C h c (is_head_in _ _ _ Hh)) as [L P].
+  apply (SI_same (upd_c s c (c_set_timer (TArmed due seq)))); try reflexivity.
+  split.
+  - intros c' A. unfold armed in A. rewrite getc_upd_c in A.
+    unfold cur. rewrite getc_upd_c.
+    change (geth (upd_c s c (c_set_timer (TArmed due seq)))) with (geth s).
+    unfold is_head. change (geth (upd_c s c (c_set_timer (TArmed due seq)))) with (geth s).
+    destruct (Nat.eqb_spec c c') as [->|N]; cbn [andb] in *.
+    + destruct (Nat.ltb c' (length (cs s))).
+      * cbn [c_set_timer c_parent]. rewrite P. unfold is_head in Hh. auto.
+      * apply (S c' A).
+    + apply (S c' A).
+  - eapply ChainOK_ext; [| | |exact C].
+    + intros h'. apply incl_refl.
+    + rewrite len_cs_upd_c. auto.
+    + intros c' _. rewrite getc_upd_c. destruct (Nat.eqb c c' && Nat.ltb c (length (cs s))); reflexivity.
+Qed.
+
+Lemma SI_out_part s1 h c : SI s1 -> SI (out_part true s1 h c).
+Proof.
+  intros H. unfold out_part. destruct (gone true s1 h c) eqn:G.
+  - apply SI_close_timer; auto.
+  - unfold gone in G. cbn [andb] in G.
+    apply orb_false_iff in G. destruct G as [G Hh]. apply orb_false_iff in G. destruct G as [Ha Hc].
+    apply negb_false_iff in Ha. apply negb_false_iff in Hh.
+    eapply SI_arm; eauto.
+Qed.
+
+Lemma SI_poll_cb s c res beh cnt : SI s -> SI (fst (fst (poll_cb true s c res beh cnt))).
+Proof.
+  intros H. rewrite poll_cb_split. cbv zeta.
+  assert (H0 : SI (upd_c s c (c_set_inflight false))) by (apply SI_upd_c; auto).
+  pose proof (SI_mid true _ c res beh cnt H0) as X.
+  destruct (mid true (upd_c s c (c_set_inflight false)) c res beh cnt) as [[s1 ev] n]. cbn [fst] in *.
+  apply SI_out_part; auto.
+Qed.
+
+Lemma SI_work_done l : forall s beh cnt, SI s -> SI (fst (fst (work_done true l s beh cnt))).
+Proof.
+  induction l as [|[c r] l IH]; intros s beh cnt H; cbn [work_done]; auto.
+  pose proof (SI_poll_cb s c r beh cnt H) as X.
+  destruct (poll_cb true s c r beh cnt) as [[s1 e1] n1]. cbn [fst] in X.
+  pose proof (IH s1 beh n1 X) as Y.
+  destruct (work_done true l s1 beh n1) as [[s2 e2] n2]. exact Y.
+Qed.
+
+Lemma SI_upd_h_keep s h f :
+  (forall x, h_chain (f x) = h_chain x /\ h_active (f x) = h_active x /\ h_closing (f x) = h_closing x) ->
+  SI s -> SI (upd_h s h f).
+Proof.
+  intros F [S C].
+  assert (G : forall h', h_chain (geth (upd_h s h f) h') = h_chain (geth s h') /\
+                         h_active (geth (upd_h s h f) h') = h_active (geth s h') /\
+                         h_closing (geth (upd_h s h f) h') = h_closing (geth s h')).
+  { intros h'. rewrite geth_upd_h. destruct (Nat.eqb h h' && Nat.ltb h (length (hs s))); auto. }
+  split.
+  - intros c A. change (armed s c) in A. destruct (S c A) as (X & Y & Z).
+    unfold cur, is_head in *. change (getc (upd_h s h f) c) with (getc s c).
+    destruct (G (c_parent (getc s c))) as (G1 & G2 & G3). rewrite G1, G2, G3. auto.
+  - eapply ChainOK_ext; [| | |exact C]; auto.
+    intros h'. destruct (G h') as (G1 & _). rewrite G1. apply incl_refl.
+Qed.
+
+(* freeing context c after its parent's chain has been shortened *)
+Lemma SI_free_generic s X c :
+  cs X = cs s ->
+  (forall h', h_active (geth X h') = h_active (geth s h') /\
+              h_closing (geth X h') = h_closing (geth s h') /\
+              incl (h_chain (geth X h')) (h_chain (geth s h')) /\
+              (forall c', c' <> c -> is_head s h' c' = true -> is_head X h' c' = true)) ->
+  SI s -> SI (upd_c X c c_set_freed).
+Proof.
+  intros Ec HX [S C].
+  assert (Gc : forall c', getc X c' = getc s c') by (intros; unfold getc; rewrite Ec; reflexivity).
+  split.
+  - intros c' A. unfold armed in A. rewrite getc_upd_c in A.
+    destruct (Nat.eqb c c' && Nat.ltb c (length (cs X))) eqn:Cond; [discriminate|].
+    rewrite Gc in A. change (armed s c') in A.
+    assert (N : c' <> c).
+    { intros ->. rewrite Nat.eqb_refl in Cond. cbn in Cond. apply Nat.ltb_ge in Cond.
+      pose proof (armed_lt _ _ A). rewrite Ec in Cond. lia. }
+    destruct (S c' A) as (P & Q & R).
+    unfold cur. rewrite getc_upd_c, Cond, Gc.
+    destruct (HX (c_parent (getc s c'))) as (Y1 & Y2 & _ & Y4).
+    change (geth (upd_c X c c_set_freed)) with (geth X).
+    unfold is_head. change (geth (upd_c X c c_set_freed)) with (geth X). fold (is_head X (c_parent (getc s c')) c').
+    rewrite Y1, Y2. auto.
+  - intros h' c' I. change (geth (upd_c X c c_set_freed) h') with (geth X h') in I.
+    destruct (HX h') as (_ & _ & Y3 & _).
+    destruct (C h' c' (Y3 c' I)) as [L P]. rewrite len_cs_upd_c, Ec. split; auto.
+    rewrite getc_upd_c, Gc. destruct (Nat.eqb c c' && Nat.ltb c (length (cs X))); auto.
+Qed.
+
+Lemma incl_remove_nat c l : incl (remove_nat c l) l.
+Proof. intros x I. unfold remove_nat in I. apply filter_In in I. apply I. Qed.
+
+Lemma SI_timer_close_cb s c : SI s -> SI (timer_close_cb s c).
+Proof.
+  intros H. unfold timer_close_cb.
+  set (h := c_parent (getc s c)).
+  set (s0 := set_hq s (remove_nat c (hq s))).
+  assert (Triv : forall h', h_active (geth s0 h') = h_active (geth s h') /\
+                 h_closing (geth s0 h') = h_closing (geth s h') /\
+                 incl (h_chain (geth s0 h')) (h_chain (geth s h')) /\
+                 (forall c', c' <> c -> is_head s h' c' = true -> is_head s0 h' c' = true)).
+  { intros h'. repeat split; auto. apply incl_refl. }
+  change (geth s0 h) with (geth s h).
+  destruct (h_chain (geth s h)) as [|c0 rest] eqn:Ch.
+  - apply (SI_free_generic s); auto.
+  - destruct (Nat.eqb_spec c0 c) as [E|E].
+    + (* the head leaves *)
+      assert (G : forall f h', geth (upd_h s0 h f) h' =
+                  if Nat.eqb h h' && Nat.ltb h (length (hs s)) then f (geth s h') else geth s h').
+      { intros f h'. rewrite geth_upd_h. reflexivity. }
+      assert (K : SI (upd_c (upd_h s0 h (h_set_chain rest)) c c_set_freed)).
+      { apply (SI_free_generic s); auto. intros h'. unfold is_head. rewrite !G.
+        destruct (Nat.eqb_spec h h') as [<-|N]; cbn [andb];
+          [|repeat split; auto; try apply incl_refl].
+        destruct (Nat.ltb h (length (hs s))); [|repeat split; auto; try apply incl_refl].
+        cbn [h_set_chain h_active h_closing h_chain]. repeat split; auto.
+        - rewrite Ch. apply incl_tl, incl_refl.
+        - intros c' N Hh. rewrite Ch in Hh. apply Nat.eqb_eq in Hh. congruence. }
+      destruct rest as [|r1 rest'].
+      * destruct (h_closing (geth (upd_h s0 h (h_set_chain [])) h)); auto.
+      * exact K.
+    + apply (SI_free_generic s); auto. intros h'. unfold is_head. rewrite !geth_upd_h.
+      change (hs s0) with (hs s). change (geth s0 h') with (geth s h').
+      destruct (Nat.eqb_spec h h') as [<-|N]; cbn [andb];
+        [|repeat split; auto; try apply incl_refl].
+      destruct (Nat.ltb h (length (hs s))); [|repeat split; auto; try apply incl_refl].
+      cbn [h_set_chain h_active h_closing h_chain]. repeat split; auto.
+      * rewrite Ch. intros x [<-|I]; [left; auto|right; eapply incl_remove_nat; eauto].
+      * intros c' N Hh. rewrite Ch in Hh. exact Hh.
+Qed.
+
+Lemma SI_run_closing q : forall s beh cnt, SI s -> SI (fst (fst (run_closing q s beh cnt))).
+Proof.
+  induction q as [|[c|h] q IH]; intros s beh cnt H; cbn [run_closing]; auto.
+  - apply IH. apply SI_timer_close_cb; auto.
+  - assert (H1 : SI (upd_h s h h_set_closed)) by (apply SI_upd_h_keep; auto).
+    pose proof (SI_user_cb _ (EClosed h) beh cnt H1) as X.
+    destruct (user_cb (upd_h s h h_set_closed) (EClosed h) beh cnt) as [[s1 e1] n1]. cbn [fst] in X.
+    pose proof (IH s1 beh n1 X) as Y.
+    destruct (run_closing q s1 beh n1) as [[s2 e2] n2]. exact Y.
+Qed.
+
+Lemma SI_timer_fire s c : SI s -> SI (timer_fire s c).
+Proof.
+  intros H. unfold timer_fire.
+  eapply SI_same; [| |apply (SI_upd_c s c (fun x => c_set_inflight true (c_set_start (now s) (c_set_timer TIdle x))))];
+    try reflexivity; auto.
+  cbn. discriminate.
+Qed.
+
+Lemma SI_run_timers s : SI s -> SI (run_timers s).
+Proof.
+  unfold run_timers. generalize (due_from 0 (cs s) (now s)). intros l. revert s.
+  induction l as [|k l IH]; intros s H; cbn [fold_left]; auto.
+  apply IH. apply SI_timer_fire; auto.
+Qed.
+
+Lemma SI_iteration s beh cnt : SI s -> SI (fst (fst (iteration true s beh cnt))).
+Proof.
+  intros H. unfold iteration.
+  assert (H0 : SI (set_done s [])) by (eapply SI_same; [| |exact H]; reflexivity).
+  pose proof (SI_work_done (done s) _ beh cnt H0) as X.
+  destruct (work_done true (done s) (set_done s []) beh cnt) as [[s1 e1] n1]. cbn [fst] in X.
+  assert (H1 : SI (set_closingq s1 [])) by (eapply SI_same; [| |exact X]; reflexivity).
+  pose proof (SI_run_closing (closingq s1) _ beh n1 H1) as Y.
+  destruct (run_closing (closingq s1) (set_closingq s1 []) beh n1) as [[s2 e2] n2]. cbn [fst] in *.
+  apply SI_run_timers. eapply SI_same; [| |exact Y]; reflexivity.
+Qed.
+
+Lemma SI_release s res : SI s -> SI (fst (release s res)).
+Proof. intros H. unfold release. cbn [fst]. eapply SI_same; [| |exact H]; reflexivity. Qed.
+
+Lemma SI_drain fuel : forall s res beh cnt, SI s -> SI (fst (fst (drain true fuel s res beh cnt))).
+Proof.
+  induction fuel as [|f IH]; intros s res beh cnt H; cbn [drain]; auto.
+  pose proof (SI_release s res H) as X. destruct (release s res) as [s1 e1]. cbn [fst] in X.
+  pose proof (SI_iteration s1 beh cnt X) as Y.
+  destruct (iteration true s1 beh cnt) as [[s2 e2] n2]. cbn [fst] in Y.
+  destruct (alive s2); auto.
+  pose proof (IH s2 res beh n2 Y) as Z.
+  destruct (drain true f s2 res beh n2) as [[s3 e3] n3]. exact Z.
+Qed.
+
+Lemma SI_init t0 : SI (init t0).
+Proof.
+  split.
+  - intros c A. unfold armed, getc in A. cbn in A. destruct c; discriminate.
+  - intros h c I. unfold geth in I. cbn in I. destruct h; destruct I.
+Qed.
+
+Theorem SI_run os : forall s beh cnt, SI s -> SI (fst (run true s os beh cnt)).
+Proof.
+  induction os as [|o os IH]; intros s beh cnt H; [exact H|].
+  destruct o; cbn [run].
+  all: try (match goal with
+            | Hs : SI ?s0, IHx : forall s beh cnt, SI s -> _ |- context [api ?s0 ?o] =>
+                let X := fresh "X" in let Y := fresh "Y" in
+                pose proof (SI_api s0 o Hs) as X;
+                destruct (api s0 o) as [s1 e1]; cbn [fst] in X;
+                pose proof (IHx s1 beh cnt X) as Y; destruct (run true s1 os beh cnt); exact Y
+            end).
+  - pose proof (SI_release s res H) as X. destruct (release s res) as [s1 e1]. cbn [fst] in X.
+    pose proof (IH s1 beh cnt X) as Y. destruct (run true s1 os beh cnt); exact Y.
+  - apply IH. eapply SI_same; [| |exact H]; reflexivity.
+  - pose proof (SI_iteration s beh cnt H) as X.
+    destruct (iteration true s beh cnt) as [[s1 e1] n1]. cbn [fst] in X.
+    pose proof (IH s1 beh n1 X) as Y. destruct (run true s1 os beh n1); exact Y.
+  - pose proof (SI_drain drain_fuel s res beh cnt H) as X.
+    destruct (drain true drain_fuel s res beh cnt) as [[s1 e1] n1]. cbn [fst] in X.
+    pose proof (IH s1 beh n1 X) as Y. destruct (run true s1 os beh n1); exact Y.
+Qed.
+
+(* ------------------------------------------------------------------ *)
+(* C17_old_ctx_silent and its refutation on the code as it is          *)
+(* ------------------------------------------------------------------ *)
+(* the full statement, for a variant of the model: in every state reached by
+   any script, with any callback behaviour, only the current context of an
+   active handle has its timer armed (nothing else will stat again) ... *)
+Definition old_ctx_silent_stmt (fx : bool) : Prop :=
+  forall t0 os beh, Silent (fst (run fx (init t0) os beh 0)).
+
+(* ... and a context that is not the current context of an active, not closing
+   handle makes no callback and tears itself down when its stat completes *)
+Definition old_ctx_no_callback_stmt (fx : bool) : Prop :=
+  forall s c res beh cnt,
+  let h := c_parent (getc s c) in
+  (is_head s h c = false \/ h_active (geth s h) = false \/ h_closing (geth s h) = true) ->
+  poll_cb fx s c res beh cnt = (close_timer (upd_c s c (c_set_inflight false)) c, [], cnt).
+
+Theorem old_ctx_silent_fixed : old_ctx_silent_stmt true.
+Proof. intros t0 os beh. apply (SI_run os (init t0) beh 0 (SI_init t0)). Qed.
+
+Theorem old_ctx_no_callback_fixed : old_ctx_no_callback_stmt true.
+Proof.
+  intros s c res beh cnt h Hc. rewrite poll_cb_split. cbv zeta.
+  set (s0 := upd_c s c (c_set_inflight false)).
+  assert (P : c_parent (getc s0 c) = h).
+  { pose proof (core_upd_inflight s c false c) as X. unfold core in X. injection X as X _ _ _ _ _. exact X. }
+  assert (G : gone true s0 h c = true).
+  { unfold gone, is_head. change (geth s0 h) with (geth s h). fold (is_head s h c).
+    destruct Hc as [Hc|[Hc|Hc]]; rewrite Hc; cbn; auto.
+    - destruct (negb (h_active (geth s h))); destruct (h_closing (geth s h)); reflexivity.
+    - destruct (negb (h_active (geth s h))); reflexivity. }
+  unfold mid. rewrite P, G. unfold out_part. rewrite G. reflexivity.
+Qed.
+
+(* the witness: start A (callback 1, path 0); stop; start B (callback 2, path 1)
+   while A's first stat is in flight; both stats complete; one interval later
+   path 0 has changed *)
+Definition w_sbA : statbuf := mkSb 1 1 1 1 1 1 1 1 1 1 1 1 0 0 1.
+Definition w_sbA' : statbuf := mkSb 2 2 1 1 1 1 2 1 1 1 1 1 0 0 1.
+Definition w_sbB : statbuf := mkSb 1 1 1 1 1 1 1 1 1 1 2 1 0 0 1.
+Definition w_res1 (p : nat) : sres := match p with O => (0, w_sbA) | _ => (0, w_sbB) end.
+Definition w_res2 (p : nat) : sres := match p with O => (0, w_sbA') | _ => (0, w_sbB) end.
+Definition w_restart : list op :=
+  [OInit; OStart 0 1 0 10 0; OStop 0; OStart 0 2 1 10 0; ORelease w_res1; ORun; OAdvance 10; ORun;
+   ORelease w_res2; ORun].
+Definition w_nobeh : nat -> list op := fun _ => [].
+
+Theorem restart_in_flight_refuted :
+  ~ old_ctx_silent_stmt false /\
+  (* the old callback is called with the old path's stat results although the handle
+     was restarted with callback 2 on path 1 *)
+  In (EPoll 0 1 0 0 w_sbA w_sbA') (snd (run false (init 1000) w_restart w_nobeh 0)) /\
+  (* the old path is polled again after the restart *)
+  snd (run false (init 1000) w_restart w_nobeh 0) =
+    [ERet 0; ERet 0; ERet 0; EStat 0; EStat 1; EIter; EIter; EStat 0; EStat 1; EIter;
+     EPoll 0 1 0 0 w_sbA w_sbA'] /\
+  (* the repaired variant on the same script *)
+  snd (run true (init 1000) w_restart w_nobeh 0) =
+    [ERet 0; ERet 0; ERet 0; EStat 0; EStat 1; EIter; EIter; EStat 1; EIter].
+Proof.
+  split; [|split; [|split]].
+  - intros H. specialize (H 1000 w_restart w_nobeh 0%nat).
+    unfold armed, cur in H. vm_compute in H. destruct (H eq_refl) as [X _]. discriminate.
+  - vm_compute. right; right; right; right; right; right; right; right; right; right; left. reflexivity.
+  - vm_compute. reflexivity.
+  - vm_compute. reflexivity.
+Qed.
+
+Theorem old_ctx_no_callback_refuted : ~ old_ctx_no_callback_stmt false.
+Proof.
+  intros H.
+  (* the state in which A's second stat completes *)
+  set (s := fst (run false (init 1000)
+                    [OInit; OStart 0 1 0 10 0; OStop 0; OStart 0 2 1 10 0; ORelease w_res1; ORun;
+                     OAdvance 10; ORun] w_nobeh 0)).
+  specialize (H s 0%nat (0, w_sbA') w_nobeh 0%nat).
+  assert (Hc : is_head s (c_parent (getc s 0)) 0 = false) by (vm_compute; reflexivity).
+  specialize (H (or_introl Hc)). vm_compute in H. discriminate.
+Qed.
+
+(* ------------------------------------------------------------------ *)
+(* close / free / uv_loop_close                                        *)
+(* ------------------------------------------------------------------ *)
+(* after every handle has been closed and the loop has run until it is not
+   alive: the close callback of every handle has run, no context is left,
+   uv_loop_close succeeds *)
+Definition closes_clean_stmt (fx : bool) : Prop :=
+  forall t0 os beh res,
+  (forall k, Forall (fun o => match o with OInit => False | _ => True end) (beh k)) ->
+  let s := fst (run fx (init t0) os beh 0) in
+  let '(s', _, _) := drain fx drain_fuel
+                       (fst (apis s (map OClose (seq 0 (length (hs s)))))) res beh 0 in
+  loop_close s' = 0 /\ live_ctx s' = 0%nat.
+
+Definition w_close : list op :=
+  [OInit; OStart 0 1 0 10 0; OStop 0; OStart 0 2 1 10 0; ORelease w_res1; ORun].
+
+Theorem closes_clean_refuted :
+  ~ closes_clean_stmt false /\
+  snd (run false (init 1000) (w_close ++ [OClose 0; ODrain w_res1]) w_nobeh 0) =
+    [ERet 0; ERet 0; ERet 0; EStat 0; EStat 1; EIter; EIter; EFinal UV_EBUSY 1] /\
+  snd (run true (init 1000) (w_close ++ [OClose 0; ODrain w_res1]) w_nobeh 0) =
+    [ERet 0; ERet 0; ERet 0; EStat 0; EStat 1; EIter; EIter; EIter; EClosed 0; EFinal 0 0].
+Proof.
+  split; [|split].
+  - intros H. specialize (H 1000 w_close w_nobeh w_res1).
+    assert (B : forall k, Forall (fun o => match o with OInit => False | _ => True end) (w_nobeh k))
+      by (intros; constructor).
+    specialize (H B). vm_compute in H. destruct H as [X _]. discriminate.
+  - vm_compute. reflexivity.
+  - vm_compute. reflexivity.
+Qed.
+
+(* what holds in both variants (partial): a context is freed by its own
+   timer_close_cb and by nothing else that timer_close_cb does; when the last
+   context of a closing handle goes, the handle becomes close-pending, and
+   uv_close makes it pending at once only when it has no context *)
+Lemma freed_only_own s c c' :
+  c' <> c -> c_freed (getc (timer_close_cb s c) c') = c_freed (getc s c').
+Proof.
+  intros N. unfold timer_close_cb.
+  match goal with |- c_freed (getc (upd_c ?X c c_set_freed) c') = _ =>
+    rewrite (getc_upd_c X c c_set_freed c'); set (Y := X) end.
+  destruct (Nat.eqb_spec c c'); [congruence|]. cbn [andb].
+  assert (E : cs Y = cs s).
+  { unfold Y. destruct (h_chain (geth (set_hq s (remove_nat c (hq s))) (c_parent (getc s c)))) as [|c0 rest];
+      [reflexivity|].
+    destruct (Nat.eqb c0 c); [|reflexivity].
+    destruct rest; [|reflexivity].
+    match goal with |- cs (if ?b then _ else _) = _ => destruct b end; reflexivity. }
+  unfold getc. rewrite E. reflexivity.
+Qed.
+
+Lemma last_ctx_makes_pending s c h :
+  h = c_parent (getc s c) -> (h < length (hs s))%nat ->
+  h_chain (geth s h) = [c] -> h_closing (geth s h) = true ->
+  In (CHandle h) (closingq (timer_close_cb s c)) /\ h_chain (geth (timer_close_cb s c) h) = [].
+Proof.
+  intros Eh L Ch Cl. unfold timer_close_cb. rewrite <- Eh.
+  change (geth (set_hq s (remove_nat c (hq s))) h) with (geth s h). rewrite Ch, Nat.eqb_refl.
+  set (s' := upd_h (set_hq s (remove_nat c (hq s))) h (h_set_chain [])).
+  assert (G : geth s' h = h_set_chain [] (geth s h)).
+  { unfold s'. rewrite geth_upd_h, Nat.eqb_refl. cbn [andb hs set_hq].
+    destruct (Nat.ltb_spec h (length (hs s))); [reflexivity|lia]. }
+  rewrite G. cbn [h_set_chain h_closing]. rewrite Cl.
+  split.
+  - cbn. left; reflexivity.
+  - change (geth (upd_c (set_closingq s' (CHandle h :: closingq s')) c c_set_freed) h) with (geth s' h).
+    rewrite G. reflexivity.
+Qed.
+
+Lemma close_pending_iff_no_ctx s h :
+  In (CHandle h) (closingq (do_close s h)) ->
+  ~ In (CHandle h) (closingq s) ->
+  h_chain (geth (do_close s h) h) = [].
+Proof.
+  unfold do_close. set (s1 := do_stop (upd_h s h h_set_closing) h).
+  destruct (h_chain (geth s1 h)) eqn:Ch.
+  - intros _ _. change (geth (set_closingq s1 (CHandle h :: closingq s1)) h) with (geth s1 h). exact Ch.
+  - intros I N. exfalso. apply N. clear N.
+    unfold s1, do_stop in I.
+    destruct (negb (h_active (geth (upd_h s h h_set_closing) h))); [exact I|].
+    destruct (h_chain (geth (upd_h s h h_set_closing) h)) as [|c0 l0]; [exact I|].
+    destruct (timer_active (c_timer (getc (upd_h s h h_set_closing) c0))); [|exact I].
+    cbn in I. destruct I as [I|I]; [discriminate|exact I].
+Qed.
